@@ -63,6 +63,17 @@ class C16(Plugin):
         for t in TAGS:
             for i in range(1, len(t) + 1):
                 out.append({"k": 1, "src": t[:i], "frag": False})
+        # conforming documents with foreign content: mixed-case SVG element and attribute names, explicit end tags,
+        # self-closing syntax, integration points, MathML
+        for body in ("<svg viewBox=\"0 0 1 1\"><defs><linearGradient id=\"g\"><stop offset=\"0\"/></linearGradient>"
+                     "<clipPath id=\"c\"><rect width=\"1\" height=\"1\"/></clipPath></defs><text><textPath href=\"#p\">t</textPath></text>"
+                     "<foreignObject width=\"1\" height=\"1\"><p>x</p></foreignObject></svg>",
+                     "<svg><filter id=\"f\"><feGaussianBlur stdDeviation=\"1\"></feGaussianBlur><feColorMatrix/></filter>"
+                     "<radialGradient id=\"r\"></radialGradient><title>t</title><desc>d</desc></svg>",
+                     "<p><math><mrow><mi>x</mi><mo>+</mo><mn>1</mn></mrow><annotation-xml encoding=\"text/html\"><b>y</b></annotation-xml></math></p>",
+                     "<table><tbody><tr><td><svg><g><circle r=\"1\"></circle></g></svg></td></tr></tbody></table>"):
+            out.append({"k": 1, "src": "<!DOCTYPE html><html><head><title>t</title></head><body>" + body + "</body></html>",
+                        "frag": False, "conforming": True})
         out += [{"k": 1, "src": "<a b ", "frag": f} for f in (False, True)]
         out += [{"k": 1, "src": '<a b="c"', "frag": f} for f in (False, True)]
         return out
